@@ -11,12 +11,14 @@ package lastger
 import (
 	"context"
 	"database/sql"
+	"encoding/json"
 	"errors"
 	"flag"
 	"fmt"
 	"math/big"
 	"os"
 	"path/filepath"
+	"strings"
 	gosync "sync"
 	"time"
 
@@ -44,6 +46,13 @@ type behaviour struct {
 	Buf   int    `json:"buf"` // DownloadBufferSize of the syncer (0 = 100)
 	Lag   int    `json:"lag"` // the node's L1 info tree syncer is behind: the first Lag look-ups of every GER find nothing yet (< retry limit)
 	Steps []step `json:"steps"`
+	// An upgraded node: the L2 chain already has the blocks Pre (mined before the node exists in this run) and the node starts on
+	// a copy of Fixture, the store file an earlier run of the repository's code left behind after it had processed exactly those
+	// blocks (written with Save at the end of a run without reorgs). GerSeed fixes the GER hashes the file was written with.
+	Pre     []blockEv `json:"pre"`
+	Fixture string    `json:"fixture"`
+	GerSeed int64     `json:"gerseed"`
+	Save    string    `json:"save"`
 }
 
 const waitFor = 3 * time.Second
@@ -84,6 +93,7 @@ type run struct {
 	maxTip  uint64 // highest tip shown to the node (environment assumption: forks only win when longer)
 	drifts  int
 	stuck   bool
+	gerSeed int64
 }
 
 // Run is the driver's entry point: -in behaviours.json -out trace.ndjson
@@ -120,19 +130,40 @@ func Run(args []string) error {
 	}
 
 	// the real L1-info store, filled once: leaf index i carries GER i (index 0 is never injected)
-	l1, gerOf, err := buildL1Info(filepath.Join(dir, "l1info.sqlite"), *maxG)
-	if err != nil {
-		return fmt.Errorf("l1 info store: %w", err)
+	type l1store struct {
+		l1    *l1infotreesync.L1InfoTreeSync
+		gerOf map[int]common.Hash
+		idOf  map[common.Hash]int
 	}
-	idOf := map[common.Hash]int{}
-	for i, h := range gerOf {
-		idOf[h] = i
+	stores := map[int64]*l1store{}
+	storeFor := func(seed int64) (*l1store, error) {
+		if st := stores[seed]; st != nil {
+			return st, nil
+		}
+		l1, gerOf, err := buildL1Info(filepath.Join(dir, fmt.Sprintf("l1info-%d.sqlite", seed)), *maxG, seed)
+		if err != nil {
+			return nil, fmt.Errorf("l1 info store: %w", err)
+		}
+		idOf := map[common.Hash]int{}
+		for i, h := range gerOf {
+			idOf[h] = i
+		}
+		stores[seed] = &l1store{l1, gerOf, idOf}
+		return stores[seed], nil
 	}
 	for i, b := range bs {
 		if b.NG < 1 || b.NG > *maxG {
 			return fmt.Errorf("behaviour %d: ng=%d out of range", i, b.NG)
 		}
-		r := &run{w: w, b: b, dir: dir, dbPath: filepath.Join(dir, fmt.Sprintf("lastger-%d.sqlite", i)), gerOf: gerOf, idOf: idOf, l1: l1}
+		gs := b.GerSeed
+		if gs == 0 {
+			gs = tr.Seed()
+		}
+		st, err := storeFor(gs)
+		if err != nil {
+			return err
+		}
+		r := &run{w: w, b: b, dir: dir, dbPath: filepath.Join(dir, fmt.Sprintf("lastger-%d.sqlite", i)), gerOf: st.gerOf, idOf: st.idOf, l1: st.l1, gerSeed: gs}
 		if err := r.play(i); err != nil {
 			return fmt.Errorf("behaviour %d: %w", i, err)
 		}
@@ -143,13 +174,12 @@ func Run(args []string) error {
 	return nil
 }
 
-func buildL1Info(path string, n int) (*l1infotreesync.L1InfoTreeSync, map[int]common.Hash, error) {
+func buildL1Info(path string, n int, seed int64) (*l1infotreesync.L1InfoTreeSync, map[int]common.Hash, error) {
 	l1, err := l1infotreesync.NewVerifL1InfoTreeSync(path)
 	if err != nil {
 		return nil, nil, err
 	}
 	ctx := context.Background()
-	seed := tr.Seed()
 	for i := 0; i <= n; i++ {
 		mer := common.BigToHash(new(big.Int).SetUint64(uint64(seed)*1000003 + uint64(i)*7919 + 1))
 		rer := common.BigToHash(new(big.Int).SetUint64(uint64(seed)*999983 + uint64(i)*104729 + 2))
@@ -432,6 +462,19 @@ func (r *run) play(id int) error {
 	r.g = newGates()
 	r.det = newDetector(r.c, r.g, r.w)
 	r.w.Emit(tr.M{"ev": "cfg", "id": id, "ng": r.b.NG})
+	if r.b.Fixture != "" {
+		// the earlier life of the node, as the property-level monitor sees it: these blocks were produced, the node was shown
+		// the last of them, stopped, and is now started again (by the code under test) on the file it left behind
+		for _, e := range r.b.Pre {
+			r.mine(e)
+		}
+		r.w.Emit(tr.M{"ev": "poll", "tip": r.c.tip(), "fixture": true})
+		r.maxTip = r.c.tip()
+		if err := copyFile(r.b.Fixture, r.dbPath); err != nil {
+			return fmt.Errorf("fixture: %w", err)
+		}
+		r.w.Emit(tr.M{"ev": "restart", "fixture": true})
+	}
 	if err := r.start(); err != nil {
 		return err
 	}
@@ -493,7 +536,54 @@ func (r *run) play(id int) error {
 		return err
 	}
 	r.w.Emit(tr.M{"ev": "end", "drifts": r.drifts})
-	return r.stop()
+	if r.b.Save == "" {
+		return r.stop()
+	}
+	lpb, err := r.syncer.GetLastProcessedBlock(context.Background())
+	if err != nil {
+		return err
+	}
+	if err := r.stop(); err != nil {
+		return err
+	}
+	return r.save(lpb)
+}
+
+// save writes the store file of a finished run (no reorgs: the block hashes in the file are those of a chain rebuilt from the
+// events alone) and the description a later run needs to put a node on it.
+func (r *run) save(lpb uint64) error {
+	if r.c.gen != 0 || lpb != r.c.tip() {
+		return fmt.Errorf("save: the run had reorgs or did not end at rest (last processed %d, tip %d)", lpb, r.c.tip())
+	}
+	h, err := sql.Open("sqlite3", "file:"+r.dbPath)
+	if err != nil {
+		return err
+	}
+	if _, err := h.Exec(`PRAGMA wal_checkpoint(TRUNCATE)`); err != nil {
+		h.Close()
+		return err
+	}
+	h.Close()
+	if err := copyFile(r.dbPath, r.b.Save); err != nil {
+		return err
+	}
+	pre := []blockEv{}
+	for _, b := range r.c.blocks[1:] {
+		pre = append(pre, b.ev)
+	}
+	js, err := json.MarshalIndent(tr.M{"ng": r.b.NG, "gerseed": r.gerSeed, "pre": pre, "lpb": lpb, "steps": r.b.Steps}, "", " ")
+	if err != nil {
+		return err
+	}
+	return os.WriteFile(strings.TrimSuffix(r.b.Save, ".sqlite")+".json", js, 0o644)
+}
+
+func copyFile(from, to string) error {
+	b, err := os.ReadFile(from)
+	if err != nil {
+		return err
+	}
+	return os.WriteFile(to, b, 0o600)
 }
 
 // lagL1 is the node's L1 info tree syncer seen while it is still catching up: a GER is found only from the (lag+1)-th
